@@ -473,3 +473,188 @@ def check_root_attrs(leaves, flat, disc):
     if REFERENCE_DOCUMENT_KEY not in flat:
         out.append(disc("leaf-missing", REFERENCE_DOCUMENT_KEY, "reference document link", None))
     return out
+
+
+# ---------------------------------------------------------------------------------------------
+# image groups (hand-stated exposure of the line records and of the image file descriptor)
+# ---------------------------------------------------------------------------------------------
+
+LINE_IGNORED = {
+    "preamble",
+    "record_start",
+    "actual_count_of_left_fill_pixels",
+    "actual_count_of_right_fill_pixels",
+    "actual_count_of_data_pixels",
+    "alos2_frame_number",
+    "palsar_auxiliary_data",
+    "data",
+}
+LINE_CONSTANTS = {
+    "sar_image_data_record_index",
+    "sensor_parameters_update_flag",
+    "scan_id",
+    "sar_channel_code",
+    "sar_channel_id",
+    "onboard_range_compressed_flag",
+    "chirp_type_designator",
+    "platform_position_parameters_update_flag",
+    "geographic_reference_parameter_update_flag",
+    "transmitted_pulse_polarization",
+    "received_pulse_polarization",
+}
+LINE_RENAMES = {"sar_image_data_line_number": "rows"}
+NESTED_L11 = {
+    "elevation_angle_at_nadir_of_antenna",
+    "antenna_squint_angle",
+    "platform_velocity",
+    "platform_acceleration",
+    "platform_attitude",
+}
+HEADER_ATTRS = {
+    "sar_related_data_in_the_record/interleaving_id": "interleaving_id",
+    "prefix_suffix_data_locators/maximum_data_range_of_pixel": "valid_range",
+    "prefix_suffix_data_locators/number_of_burst_data": "number_of_burst_data",
+    "prefix_suffix_data_locators/number_of_lines_per_burst": "number_of_lines_per_burst",
+    "scansar_burst_data_information/number_of_overlap_lines_with_adjacent_bursts": "number_of_overlap_lines_with_adjacent_bursts",
+}
+
+
+def line_time(value):
+    return (
+        np.datetime64(f"{value['year']:04d}-01-01", "ns")
+        + np.timedelta64(value["doy"] - 1, "D")
+        + np.timedelta64(value["ms"], "ms")
+    )
+
+
+def expected_image(iinfo, gname):
+    """returns (Expected, nested: {var: {sub: [(value, scaled, units)] per line}}, absent_ok keys)"""
+    prefix = f"/imagery/{gname}"
+    exp = Expected()
+    nested = {}
+    either = {}  # header attrs that may be absent or '' (blank text)
+    absent = set()
+    for leaf in iinfo["header_leaves"]:
+        name = HEADER_ATTRS.get(leaf.path)
+        if name is None:
+            continue
+        text = text_of(leaf.value)
+        key = f"{prefix}@{name}"
+        if not text.strip():
+            if leaf.codec == "A-str":
+                either[key] = ""
+            else:
+                absent.add(key)
+            continue
+        if name == "valid_range":
+            exp.set_attr(key, [0, conv_int(text)], kind="int-list")
+        elif leaf.codec == "A-str":
+            exp.set_attr(key, text.strip())
+        else:
+            exp.set_attr(key, conv_int(text))
+    for i, leaves in enumerate(iinfo["line_leaves"]):
+        date_value = None
+        for leaf in leaves:
+            parts = leaf.path.split("/")
+            top = parts[0].split("~")[0]
+            if top in LINE_IGNORED or layout.is_padding_name(top):
+                continue
+            name = LINE_RENAMES.get(top, top)
+            key = f"{prefix}#{name}"
+            scaled = leaf.node.get("factor") is not None
+            if top in LINE_CONSTANTS:
+                if i == 0:
+                    exp.set_attr(f"{prefix}@{name}", convert(leaf), scaled)
+                continue
+            if leaf.codec == "ydms":
+                date_value = leaf.value
+                exp.set_elem(key, (i,), line_time(leaf.value), kind="datetime64")
+                continue
+            if leaf.codec == "ydus":
+                day = np.datetime64(f"{date_value['year']:04d}-01-01", "ns") + np.timedelta64(date_value["doy"] - 1, "D")
+                exp.set_elem(key, (i,), day + np.timedelta64(leaf.value, "us"), kind="datetime64")
+                continue
+            if top in NESTED_L11:
+                sub = parts[1]
+                nested.setdefault(top, {}).setdefault(sub, []).append(
+                    (convert(leaf), scaled, leaf.node.get("attrs", {}).get("units"))
+                )
+                continue
+            exp.set_elem(key, (i,), convert(leaf), scaled)
+            for ak, av in leaf.node.get("attrs", {}).items():
+                exp.var_attrs[f"{key}@{ak}"] = av
+    return exp, nested, either, absent
+
+
+def check_image_group(iinfo, gname, flat, disc):
+    prefix = f"/imagery/{gname}"
+    exp, nested, either, absent = expected_image(iinfo, gname)
+    # valid_range is a list attribute
+    vr_key = f"{prefix}@valid_range"
+    vr = exp.attrs.pop(vr_key, None)
+    out, matched = compare(exp, flat, disc)
+    if vr is not None:
+        obs = flat.get(vr_key)
+        matched.add(vr_key)
+        if obs is None:
+            out.append(disc("leaf-missing", vr_key, vr[0], None))
+        elif not (isinstance(obs, (list, tuple)) and [int(v) for v in obs] == vr[0]):
+            out.append(disc("value", vr_key, vr[0], obs))
+    for key, value in either.items():
+        if key in flat:
+            matched.add(key)
+            if flat[key] != value:
+                out.append(disc("value", key, f"absent or {value!r}", flat[key]))
+    for key in absent:
+        if key in flat:
+            matched.add(key)
+            out.append(disc("fabricated-header-attribute", key, "absent (header field is blank)", flat[key]))
+    # nested level-1.1 sub-structs: D8 shape (object array of dicts) or flattened variables found by content
+    for var, subs in nested.items():
+        key = f"{prefix}#{var}"
+        leaf = flat.get(key)
+        if leaf is not None and leaf.values is not None and leaf.values.dtype.kind == "O":
+            matched.add(key)
+            out.append(disc("d8-object-array", key, "numeric variables", "object array of dicts"))
+            for sub, column in subs.items():
+                for i, (value, scaled, units) in enumerate(column):
+                    item = leaf.values[i]
+                    ok = isinstance(item, dict) and sub in item and isinstance(item[sub], tuple)
+                    if ok:
+                        got, attrs = item[sub]
+                        ok = scalar_match(value, got, scaled) and attrs.get("units") == units
+                    if not ok:
+                        out.append(disc("value", key, (sub, value, units), item, index=[i]))
+                        break
+        else:
+            # located by content: any rows-variable of the group with these values and unit
+            for sub, column in subs.items():
+                found = False
+                for k2, leaf2 in flat.items():
+                    if not (k2.startswith(prefix + "#") and hasattr(leaf2, "dims")) or leaf2.dims != ("rows",):
+                        continue
+                    if leaf2.values is None or leaf2.values.dtype.kind not in "fiu" or len(leaf2.values) != len(column):
+                        continue
+                    if all(scalar_match(v, leaf2.values[i].item(), s) for i, (v, s, _u) in enumerate(column)) and flat.get(f"{k2}@units") == column[0][2]:
+                        matched.add(k2)
+                        matched.add(f"{k2}@units")
+                        found = True
+                        break
+                if not found:
+                    out.append(disc("leaf-missing", f"{key}/{sub}", "a rows variable with the written values", None))
+    # every per-line variable is a coordinate of the image
+    for key in exp.vars:
+        leaf = flat.get(key)
+        if leaf is not None and not leaf.is_coord:
+            out.append(disc("not-a-coordinate", key, "coordinate", "data variable"))
+    # anything else in the group
+    data_key = f"{prefix}#data"
+    for key, value in flat.items():
+        if not (key.startswith(prefix + "@") or key.startswith(prefix + "#") or key == prefix + "/"):
+            continue
+        if key in matched or key == data_key or key == prefix + "#" or key == prefix + "/":
+            continue
+        if key.startswith(data_key + "@"):
+            continue
+        out.append(disc("leaf-unexpected", key, "not written in any record field", value))
+    return out
